@@ -11,6 +11,7 @@ CONSTANTS
   MaxN = 3
   FileSize = 2
   Chunks <- MC_Chunks
+  MaxAddr = 6
 VIEW View
 INVARIANTS FlatAgree Counters InOrderOnce Placed FailClean Results NoOOB DirtyExact ObjCount Lemmas
 CHECK_DEADLOCK FALSE
